@@ -58,3 +58,30 @@ def to_bytes(x):
     if isinstance(x, (bytes, bytearray)):
         return bytes(x)
     return b""
+
+
+def native_clause(src):
+    """a contract clause as a native Python expression (for evaluating it on the real objects in a replay):
+    implies(a, b) -> (not a) or b ; forall(i, lo, hi, body) -> all(body for i in range(lo, hi)) ; exists likewise ;
+    ite(c, a, b) -> a if c else b.  old() has no native counterpart: clauses using it are not replayed this way"""
+    import ast
+
+    class T(ast.NodeTransformer):
+        def visit_Call(self, n):
+            self.generic_visit(n)
+            if isinstance(n.func, ast.Name):
+                f = n.func.id
+                if f == "implies" and len(n.args) == 2:
+                    return ast.BoolOp(ast.Or(), [ast.UnaryOp(ast.Not(), n.args[0]), n.args[1]])
+                if f in ("forall", "exists", "forallq") and len(n.args) == 4:
+                    gen = ast.GeneratorExp(n.args[3], [ast.comprehension(
+                        ast.Name(n.args[0].id, ast.Store()), ast.Call(ast.Name("range", ast.Load()), [n.args[1], n.args[2]], []),
+                        [], 0)])
+                    return ast.Call(ast.Name("all" if f != "exists" else "any", ast.Load()), [gen], [])
+                if f == "ite" and len(n.args) == 3:
+                    return ast.IfExp(n.args[0], n.args[1], n.args[2])
+                if f == "old":
+                    raise ValueError("old() in a natively evaluated clause")
+            return n
+    tree = T().visit(ast.parse(src, mode="eval"))
+    return ast.unparse(ast.fix_missing_locations(tree))
